@@ -86,8 +86,18 @@ class C04(Check):
             variant = data.draw(st.sampled_from(['start', 'Start', 'START', 'class', 'class']))
             rules = [r for r in g.rules if r[1] != 'start']
             if variant == 'class':
-                rules.append(('class', 'Start', None, [('field', 'first', ('ref', 'R0')),
-                                                       ('field', 'second', ('opt', ('ref', 'R1')))]))
+                # the class may open with any kind of member: the leading skip belongs in front of it
+                tokb = (lambda t: t.encode('latin-1')) if g.mode == 'bytes' else (lambda t: t)
+                first = data.draw(st.sampled_from([
+                    [('field', 'first', ('ref', 'R0'))],
+                    [('let', 'konst', ('lit', 'a')), ('field', 'first', ('opt', ('ref', 'R0')))],
+                    [('let', 'konst', ('lit', 'ab')), ('let', 'other', ('opt', ('lit', 'b'))), ('field', 'first', ('opt', ('ref', 'R0')))],
+                    [('pass', None, ('lit', 'a')), ('field', 'first', ('opt', ('ref', 'R0')))],
+                    [('field', 'lead', ('lit', 'b')), ('field', 'first', ('opt', ('ref', 'R0')))],
+                    [('let', 'bound', ('ref', 'R0')), ('field', 'first', ('py', 'bound'))],
+                    [('pass', None, ('opt', ('lit', 'b'))), ('field', 'first', ('ref', 'R0'))],
+                ]))
+                rules.append(('class', 'Start', None, first + [('field', 'second', ('opt', ('ref', 'R1')))]))
                 sname = 'Start'
             else:
                 rules.append(('rule', variant, None, ('ref', 'R0')))
